@@ -83,7 +83,15 @@ pub struct DutSpec {
     pub seed: u64,
     pub overrides_write: bool,
     pub faults: Vec<Fault>,
+    /// the driver keeps ONE table of `Signal`s and rewrites it in place from what the device
+    /// reports in each call: the entries of every answer refer to the same addresses,
+    /// whatever signals they describe (a driver that owns its signals may do that - the
+    /// answer borrows from `&mut self`)
+    pub in_place: bool,
 }
+
+/// largest answer an `in_place` driver keeps in its fixed table
+pub const IN_PLACE_CAPACITY: usize = 400;
 
 pub const TAG_CALL: i64 = 1_000_000;
 pub const TAG_SIG: i64 = 1_000;
@@ -408,6 +416,9 @@ pub struct DutCore {
     pub log: CallLog,
     seq: Rc<Cell<u64>>,
     calls: u64,
+    /// the one signal table of an `in_place` driver (capacity fixed up front so that its
+    /// elements never move)
+    table: Vec<Signal>,
 }
 
 pub fn in_val(v: InputValue) -> InVal {
@@ -474,6 +485,7 @@ impl DutCore {
             log: Rc::new(RefCell::new(vec![])),
             seq,
             calls: 0,
+            table: Vec::with_capacity(IN_PLACE_CAPACITY),
         })
     }
 
@@ -513,7 +525,38 @@ impl DutCore {
         answer
     }
 
-    fn realise(&self, ans: Vec<(SigId, OutVal)>) -> Vec<OutputEntry<'_>> {
+    fn realise(&mut self, ans: Vec<(SigId, OutVal)>) -> Vec<OutputEntry<'_>> {
+        if self.model.spec.in_place && ans.len() <= IN_PLACE_CAPACITY {
+            // rewrite the table in place: element k now describes the k-th reported signal
+            for (k, (id, _)) in ans.iter().enumerate() {
+                let sig = match id {
+                    SigId::Test(i) => {
+                        let pos = self
+                            .model
+                            .layout_ids
+                            .iter()
+                            .position(|l| l == i)
+                            .expect("answer signal is in the layout");
+                        self.own[pos].clone()
+                    }
+                    SigId::Foreign(x) => self.extra[*x as usize].clone(),
+                };
+                if k < self.table.len() {
+                    self.table[k] = sig;
+                } else {
+                    self.table.push(sig);
+                }
+            }
+            self.table.truncate(ans.len());
+            return ans
+                .into_iter()
+                .zip(self.table.iter())
+                .map(|((_, v), signal)| OutputEntry {
+                    signal,
+                    value: to_output_value(v),
+                })
+                .collect();
+        }
         ans.into_iter()
             .map(|(id, v)| {
                 let signal = match id {
@@ -720,6 +763,7 @@ impl DutSpec {
             )
             .set("seed", J::i(self.seed))
             .set("overrides_write_input", J::Bool(self.overrides_write))
+            .set("in_place_signal_table", J::Bool(self.in_place))
             .set(
                 "faults",
                 J::arr(&self.faults, |f| {
@@ -758,6 +802,10 @@ impl DutSpec {
             layout,
             seed: j.req("seed")?.as_u64()?,
             overrides_write: j.req("overrides_write_input")?.as_bool()?,
+            in_place: match j.get("in_place_signal_table") {
+                Some(b) => b.as_bool()?,
+                None => false,
+            },
             faults,
         })
     }
